@@ -200,6 +200,19 @@ def build_replay(info, sanitize=False):
         raise BuildError('replay build failed:\n' + r.stdout[-3000:])
     return exe
 
+def build_replay_cpp_san(o, info):
+    """the harness C++ source (real code, no substitutions) compiled natively with ASan+UBSan"""
+    exe = os.path.join(info['dir'], 'replay_cppsan')
+    src = os.path.join(VERIF, 'harness', o.tu)
+    if os.path.exists(exe) and os.path.getmtime(exe) >= os.path.getmtime(info['sll']):
+        return exe
+    flags = [f for f in CLANG_FLAGS if f not in ('-S', '-emit-llvm', '-O0', '-Xclang', '-disable-O0-optnone')]
+    r = sh(['clang++-14', '-O0', '-g', '-fsanitize=address,undefined', '-fno-sanitize-recover=all'] + flags + ['-D%s' % x for x in o.defs] +
+           [src, '-x', 'c', os.path.join(VF, 'rt_native.c'), '-o', exe, '-rdynamic', '-ldl', '-lm'])
+    if r.returncode != 0:
+        raise BuildError('sanitizer replay build failed:\n' + r.stdout[-3000:])
+    return exe
+
 def build_cnative(info):
     """generated C compiled natively by gcc (translator self-test)"""
     exe = os.path.join(info['dir'], 'cnative')
@@ -418,9 +431,20 @@ def classify_failures(pid, o, rec, known):
                 outcome['errors'].append('unwinding bound too small: %s' % desc)
         else:
             # built-in check (bounds, pointer, overflow, division, shift, stub reached)
-            rc, out = native_replay(o, info, path, sanitize=True)
+            try:
+                if desc.startswith('nsw ') or o.replace:
+                    # arithmetic-overflow assertions live in the generated C: replay that (gcc-compiled, assertions active)
+                    exe = build_cnative(info)
+                else:
+                    exe = build_replay_cpp_san(o, info)
+                r = subprocess.run([exe, o.fn, path], stdout=subprocess.PIPE, stderr=subprocess.STDOUT, text=True, timeout=120)
+                rc, out = r.returncode, r.stdout
+            except subprocess.TimeoutExpired:
+                rc, out = 'timeout', ''
+            except BuildError as e:
+                rc, out = 0, str(e)
             if rc not in (0, 4, 5) or 'runtime error' in out or 'AddressSanitizer' in out:
-                outcome['violations'].append(dict(desc=desc + ' (sanitizer/native run confirms)', replay=path, obligation=o.name))
+                outcome['violations'].append(dict(desc=desc + ' (native replay confirms: ' + (out.strip().split('\n')[-1][:120] if out.strip() else str(rc)) + ')', replay=path, obligation=o.name))
             elif 'pointer' in desc and 'overflow' in desc or 'pointer relation' in desc or 'pointer arithmetic' in desc:
                 outcome['ub_notes'].append(dict(desc=desc, replay=path))
             else:
@@ -442,7 +466,7 @@ def selftest(infos, outdir):
     for info in infos:
         ctext = open(info['c']).read()
         fns = sorted(set(re.findall(r'\b(selftest_\w+)\(void\) \{', ctext)))
-        if not fns: continue
+        if not fns or info.get('replaced'): continue   # stubs need harness state: self-test only un-substituted variants
         try:
             a = build_replay(info); b = build_cnative(info)
         except BuildError as e:
@@ -462,8 +486,16 @@ def do_replay(pid, path):
         log('unknown obligation in replay file'); return 2
     o = cands[0]
     info = build_variant(o)
-    rc, out = native_replay(o, info, path, sanitize='VA' not in hdr.get('failed', 'VA'))
+    rc, out = native_replay(o, info, path)
     log(out)
+    if rc in (0,):
+        try:
+            exe = build_cnative(info)
+            r = subprocess.run([exe, o.fn, path], stdout=subprocess.PIPE, stderr=subprocess.STDOUT, text=True, timeout=120)
+            rc, out = r.returncode, r.stdout
+            log('(generated-C replay with arithmetic assertions) ' + out)
+        except Exception as e:
+            log('generated-C replay not available: %s' % e)
     return 1 if rc not in (0, 4, 5) else 0
 
 def main():
